@@ -80,7 +80,8 @@ def ann_set(op):
 ALGS = ["omitted", "Auto", "LU", "Cholesky", "CG", "GMRES"]
 STEPS = ["matvec", "rmatvec", "matmat", "T", "H", "add", "sub", "mulc", "divc", "neg", "matmul", "kron", "kronsum", "bd", "annotate",
          "densify", "getitem_row", "getitem_slice", "getitem_idx", "to_none", "inv", "solve", "logdet", "diag", "trace", "exp", "sqrt",
-         "pow", "eig", "svd", "cholesky", "plu", "cg", "gmres", "lanczos", "arnoldi", "hutch", "flatten", "repeat"]
+         "pow", "eig", "svd", "cholesky", "plu", "cg", "gmres", "lanczos", "arnoldi", "hutch", "flatten", "inv_left", "inv_T", "rmatmat",
+         "repeat"]
 
 
 @st.composite
@@ -91,7 +92,7 @@ def step(draw, n_ops, n_steps_so_far):
         s["c"] = draw(st.sampled_from([2.0, -1.5, 0.5, 3]))
     if name == "annotate":
         s["a"] = draw(st.sampled_from(["PSD", "SelfAdjoint", "Unitary", "Stiefel"]))
-    if name in ("inv", "solve"):
+    if name in ("inv", "solve", "inv_left", "inv_T"):
         s["alg"] = draw(st.sampled_from(ALGS))
     if name == "diag":
         s["k"] = draw(st.sampled_from([0, 0, 1, -1]))
@@ -164,7 +165,8 @@ class Ctx:
             return np.array([int(p) - n if rng.random() < 0.5 else int(p) for p in pos], dtype=np.int64)
 
         self.idx, self.idx2 = index_array(), index_array()
-        self.arrays = {"b": self.b, "B": self.B, "x0": self.x0, "v": self.v, "idx": self.idx, "idx2": self.idx2}
+        self.BL = np.ascontiguousarray(rng.integers(-3, 4, size=(2, n)).astype(np.complex128 if cplx else np.float64))  # left operand, C order
+        self.arrays = {"b": self.b, "B": self.B, "x0": self.x0, "v": self.v, "idx": self.idx, "idx2": self.idx2, "BL": self.BL}
         self.n_base = len(self.ops)
 
     def alg(self, name):
@@ -222,6 +224,15 @@ class Ctx:
         if name == "inv":
             alg = self.alg(s["alg"])
             return L.inv(A, *([alg] if alg else [])) @ b
+        if name == "inv_left":  # the inverse on the right of caller-owned arrays
+            alg = self.alg(s["alg"] if s.get("alg") not in ("CG", "GMRES") else "omitted")
+            Ai = L.inv(A, *([alg] if alg else []))
+            return [self.BL @ Ai, b @ Ai]
+        if name == "inv_T":
+            alg = self.alg(s["alg"] if s.get("alg") not in ("CG", "GMRES") else "omitted")
+            return L.inv(A, *([alg] if alg else [])).T @ b
+        if name == "rmatmat":
+            return self.BL @ A
         if name == "solve":
             alg = self.alg(s["alg"])
             return L.solve(A, Bm, *([alg] if alg else []))
